@@ -106,6 +106,9 @@ func (g *Goodbye) Unmarshal(rawPacket []byte) error {
 		g.Sources[i] = binary.BigEndian.Uint32(rawPacket[offset:])
 	}
 
+	// a packet without a reason must not keep the reason of an earlier Unmarshal
+	g.Reason = ""
+
 	if reasonOffset < len(rawPacket) {
 		reasonLen := int(rawPacket[reasonOffset])
 		reasonEnd := reasonOffset + 1 + reasonLen
